@@ -168,7 +168,14 @@ func runCase(c *vf.Ctx, base *chain.World, ac accCase, depth int) {
 				c.Count("transitions", 1)
 	c.Count("evaluations", 1)
 				l3 := len(w3.Store.SC)
-				if p := spendBlock(w3, w2, []int{0, l3 / 2, l3 - 1}, 2); p != nil {
+				idx3 := []int{0}
+				if l3/2 > 0 {
+					idx3 = append(idx3, l3/2)
+				}
+				if l3-1 > l3/2 {
+					idx3 = append(idx3, l3-1)
+				}
+				if p := spendBlock(w3, w2, idx3, 2); p != nil {
 					ac = ac2
 					fail(p, "apply-3")
 					return
